@@ -185,6 +185,7 @@ static void tf_all(bool thorough)
                 for (uint64_t cd = 0; cd < td; ++cd)
                 {
                     if (!R.shard.mine(item++)) { continue; }
+                    vx::mark("tf|orders num,den|coefficient codes", (uint64_t)nn, (uint64_t)dn, cn, cd);
                     std::vector<double> num, den;
                     uint64_t c = cn;
                     for (int i = 0; i < nn; ++i) { num.push_back(NA[c % NA.size()]); c /= NA.size(); }
@@ -222,6 +223,7 @@ static void rc_all(bool thorough)
         std::vector<int> idx((size_t)depth, 0);
         for (;;)
         {
+            vx::mark("lpf/hpf|word", (uint64_t)(al * 1024), item);
             if (R.shard.mine(item++))
             {
                 a_lpf lp;
